@@ -377,39 +377,101 @@ def intr_params():
     return out
 
 
-def render():
+INFERRED = []       # parameters the ast extraction did not recognise and a behavioural probe (srcprobe.py) decided
+
+
+def _fallback(out, key, unknown, probe):
+    """out[key] keeps its extracted value unless that is the Unknown one; then the probe's answer, if it has one."""
+    if out[key] == unknown:
+        try:
+            val = probe()
+        except BaseException:
+            val = None
+        if val is not None and val != unknown:
+            out[key] = val
+            INFERRED.append(key)
+
+
+def with_probes():
+    import srcprobe
+    del INFERRED[:]
     sp = sched_params()
+    if sp['p_cmp'] == 'CmpUnknown' or sp['p_dep_guard'] == 'false':
+        cmp_, dep = srcprobe.probe_ready()
+        _fallback(sp, 'p_cmp', 'CmpUnknown', lambda: cmp_)
+        _fallback(sp, 'p_dep_guard', 'false', lambda: dep)
+    _fallback(sp, 'p_missing', 'MUnknownMode', srcprobe.probe_missing)
+    _fallback(sp, 'p_final', 'FUnknownFinal', srcprobe.probe_final)
+    ep = exec_params()
+    if 'Unknown' in ''.join(ep.values()):
+        start, ctor, wait = srcprobe.probe_exec()
+        _fallback(ep, 'start', 'StartUnknown', lambda: start)
+        _fallback(ep, 'ctor', 'CtorUnknown', lambda: ctor)
+        _fallback(ep, 'wait', 'WaitUnknown', lambda: wait)
+    sg = storage_params()
+    if sg['g_chars'] is None or 'false' in (sg['g_empty'], sg['g_key_parent'], sg['g_file_parent'], sg['g_delete_validates']):
+        pr = srcprobe.probe_storage()
+        _fallback(sg, 'g_chars', None, lambda: pr['g_chars'])
+        for k in ('g_empty', 'g_key_parent', 'g_file_parent', 'g_delete_validates'):
+            _fallback(sg, k, 'false', lambda k=k: pr[k])
+    vp = values_params()
+    if 'Unknown' in ''.join(vp.values()):
+        pv = srcprobe.probe_values()
+        for k, unk in (('deser', 'DUnknown'), ('setstate', 'SSUnknown'), ('getstate', 'GSUnknown'), ('keymode', 'KeyUnknown')):
+            _fallback(vp, k, unk, lambda k=k: pv[k])
+    ipar = intr_params()
+    _fallback(ipar, 'gen', 'GenUnknown', srcprobe.probe_gen)
+    _fallback(ipar, 'bound', 'false', srcprobe.probe_bound)
+    if 'false' in (ipar['drain'], ipar['stop'], ipar['stopcancel']):
+        drain, stop, stopcancel = srcprobe.probe_interrupt_handlers()
+        _fallback(ipar, 'drain', 'false', lambda: drain)
+        _fallback(ipar, 'stop', 'false', lambda: stop)
+        _fallback(ipar, 'stopcancel', 'false', lambda: stopcancel)
+    lp = log_params()
+    if lp['flush'] == 'FlushUnknown' or 'false' in (lp['fb'], lp['ca']):
+        pl = srcprobe.probe_log()
+        _fallback(lp, 'flush', 'FlushUnknown', lambda: pl['flush'])
+        _fallback(lp, 'fb', 'false', lambda: pl['fb'])
+        _fallback(lp, 'ca', 'false', lambda: pl['ca'])
+    xp = ctx_params()
+    if 'false' in xp.values():
+        px = srcprobe.probe_ctx()
+        for k in ('serial', 'fork', 'spawn'):
+            _fallback(xp, k, 'false', lambda k=k: px[k])
+    cp = cache_params()
+    if 'Unknown' in cp['order'] + cp['cleanup']:
+        order, cleanup = srcprobe.probe_cache()
+        _fallback(cp, 'order', 'UnknownOrder', lambda: order)
+        _fallback(cp, 'cleanup', 'UnknownCleanup', lambda: cleanup)
+    return sp, ep, sg, vp, ipar, lp, xp, cp
+
+
+def render():
+    sp, ep, sg, vp, ipar, lp, xp, cp = with_probes()
     lines = [
         '(* GENERATED by harness/srcparams.py from the current /repo source — do not edit. *)',
         'Require Import LT.Model.ParamTypes.',
         'Definition sched_params : params :=',
         '  {| p_cmp := %(p_cmp)s; p_dep_guard := %(p_dep_guard)s; p_missing := %(p_missing)s; p_final := %(p_final)s |}.' % sp,
     ]
-    vp = values_params()
     lines += ['Definition deser_mode_src : deser_mode := %(deser)s.' % vp,
               'Definition setstate_mode_src : setstate_mode := %(setstate)s.' % vp,
               'Definition key_mode_src : key_mode := %(keymode)s.' % vp,
               'Definition getstate_mode_src : getstate_mode := %(getstate)s.' % vp]
-    ipar = intr_params()
     lines += ['Definition gen_mode_src : gen_mode := %(gen)s.' % ipar,
               'Definition drain_swallows_src : bool := %(drain)s.' % ipar,
               'Definition stop_swallows_src : bool := %(stop)s.' % ipar,
               'Definition stop_cancels_src : bool := %(stopcancel)s.' % ipar,
               'Definition finally_names_bound_src : bool := %(bound)s.' % ipar]
-    lp = log_params()
     lines += ['Definition flush_mode_src : flush_mode := %(flush)s.' % lp,
               'Definition flush_before_result_src : bool := %(fb)s.' % lp,
               'Definition consume_after_results_src : bool := %(ca)s.' % lp]
-    xp = ctx_params()
     lines += ['Definition ctx_sites_src : ctx_sites := {| cf_serial := %(serial)s; cf_fork := %(fork)s; cf_spawn := %(spawn)s |}.' % xp]
-    ep = exec_params()
     lines += ['Definition start_policy_src : start_policy := %(start)s.' % ep,
               'Definition proc_ctor_src : proc_ctor := %(ctor)s.' % ep,
               'Definition wait_policy_src : wait_policy := %(wait)s.' % ep]
-    cp = cache_params()
     lines += ['Definition save_order_src : save_order := %(order)s.' % cp,
               'Definition save_cleanup_src : save_cleanup := %(cleanup)s.' % cp]
-    sg = storage_params()
     chars = sg['g_chars']
     lines += ['From Coq Require Import NArith List.',
               'Definition storage_guards_src : storage_guards :=',
@@ -419,6 +481,8 @@ def render():
                   sg['g_key_parent'], sg['g_file_parent'], sg['g_delete_validates'])]
     for extra in EXTRA_RENDERERS:
         lines += extra()
+    if INFERRED:
+        lines += ['(* inferred by behavioural probe (shape not recognised by the ast extraction): %s *)' % ', '.join(INFERRED)]
     return '\n'.join(lines) + '\n'
 
 
